@@ -355,6 +355,78 @@ def ob_model_params():
     return Verdict(DISCHARGED, backend="AST class analysis", sub=n)
 
 
+def ob_cache_key(canary=False):
+    """cache_computed_values is transparent: for every sequence of calls, wrapper(self, *a, **k) == func(self, *a, **k).
+    The decorator is extracted and run on an uninterpreted function (returns its own call signature); all ordered pairs of
+    calls from a small argument domain (positional / keyword / default spellings, two receivers)."""
+    import numpy as _np
+    from vt import sx
+    fn = extract.get("EasyFEA/Utilities/_cache.py", "cache_computed_values")
+    g = sx.module_globals("EasyFEA.Utilities._cache")
+    g = extract.compile_module_functions("EasyFEA/Utilities/_cache.py", g, exact=False)
+    deco, clear = g["cache_computed_values"], g["clear_cached_computed_values"]
+    calls_log = []
+
+    class Obj:
+        def f(self, a, b=True, *, c=0):
+            calls_log.append((id(self), a, b, c))
+            return ("f", id(self), a, b, c)
+
+        def h(self, a, b=True):
+            return ("h", id(self), a, b)
+    raw_f, raw_h = Obj.f, Obj.h
+    Obj.f = deco(raw_f)
+    Obj.h = deco(raw_h)
+    dom = [((1,), {}), ((1,), {"b": False}), ((1, False), {}), ((2,), {}), ((1,), {"c": 3}), ((1,), {"b": True, "c": 3}), ((1, True), {"c": 0})]
+    if canary:
+        dom = dom[:1]
+    n = 0
+    for (a1, k1), (a2, k2) in itertools.product(dom, repeat=2):
+        o1, o2 = Obj(), Obj()
+        for o in (o1, o2):
+            for meth, raw in (("f", raw_f), ("h", raw_h)):
+                for (a, k) in ((a1, k1), (a2, k2), (a1, k1)):
+                    if meth == "h" and "c" in k:
+                        continue
+                    got = getattr(o, meth)(*a, **k)
+                    want = raw(o, *a, **k)
+                    n += 1
+                    if got != want or canary:
+                        raise Refuted(f"cache_computed_values returns {got} for {meth}{a}{k} after an earlier call; the function itself returns {want} "
+                                      "(the memo key does not separate calls with different arguments)",
+                                      cex=dict(first=[list(a1), k1], second=[list(a2), k2]), signature="I_cache.key",
+                                      replay=_replay_cache_key())
+    # clearing empties the memo: a changed function result is seen after clear
+    o = Obj()
+    o.state = 1
+    Obj.g = deco(lambda self: self.state)
+    v1 = o.g()
+    o.state = 2
+    clear(o)
+    if o.g() != 2:
+        raise Refuted("clear_cached_computed_values does not drop cached entries", signature="I_cache.clear", replay=dict(confirmed=True))
+    return Verdict(DISCHARGED, backend="extracted decorator run on an uninterpreted function, all ordered call pairs of the domain", sub=n + 1)
+
+
+def _replay_cache_key():
+    try:
+        from EasyFEA.FEM._utils import MatrixType
+        coords, connect = patches.star_patch("TRI3")
+        mesh = patches.real_mesh("TRI3", coords, connect)
+        mesh.Symmetry((0, 0, 0), (1, 0, 0))
+        g = mesh.groupElem
+        a = _np_asarray(g.Get_jacobian_e_pg(MatrixType.mass, absoluteValues=False)).copy()
+        b = _np_asarray(g.Get_jacobian_e_pg(MatrixType.mass)).copy()
+        return dict(confirmed=bool((b <= 0).any()), signed_min=float(a.min()), default_min=float(b.min()),
+                    note="Get_jacobian_e_pg(mass, absoluteValues=False) then Get_jacobian_e_pg(mass) on a mirrored mesh")
+    except Exception as e:
+        return dict(confirmed=False, error=repr(e))
+
+
+def _np_asarray(x):
+    return np.asarray(x)
+
+
 # ---------------------------------------------------------------- X-tier: bounded histories
 
 def _ops():
@@ -425,7 +497,10 @@ def build(tier, seed):
                   clause="descriptor -> Need_Update -> _Notify -> observer._Update"))
     obs.append(Ob("C14.I_flag.model", ob_model_params, (), "E", ("EasyFEA/Models/**",),
                   clause="public model attributes assigned in constructors are parameter descriptors or flag-raising properties"))
+    obs.append(Ob("C14.I_cache.key", ob_cache_key, (), "B", ("EasyFEA/Utilities/_cache.py::cache_computed_values", "EasyFEA/Utilities/_cache.py::clear_cached_computed_values"),
+                  bound="7 call spellings x all ordered pairs x 2 receivers x 2 signatures", clause="the memoised wrapper returns what the function returns, for every call sequence; clear drops the memo"))
     obs.append(Ob("canary.I_flag.mesh", ob_mesh_notify, (True,), "E", expect=REFUTED))
+    obs.append(Ob("canary.I_cache.key", ob_cache_key, (True,), "B", expect=REFUTED))
     names = list(_ops())
     L = 2 if tier == "quick" else 3
     seqs = [(a,) for a in names] + [s for s in itertools.product(names, repeat=2)]
